@@ -45,20 +45,25 @@ func (c *Check) duplicateLeafByEquality() {
 		return found
 	}
 	n := 0
-	for _, g := range withHelpers(f, 1) {
-		for _, b := range g.Blocks {
-			for _, ins := range b.Instrs {
-				st, ok := ins.(*ssa.Store)
-				if !ok {
-					continue
-				}
-				fa, ok := st.Addr.(*ssa.FieldAddr)
-				if !ok {
-					continue
-				}
-				if T, F := fieldOf(fa.X.Type(), fa.Field); T != "profile.Sample" || F != "Location" {
-					continue
-				}
+	{
+		g := f
+		for _, es := range effectiveSites(f, func(ins ssa.Instruction) bool {
+			st, ok := ins.(*ssa.Store)
+			if !ok {
+				return false
+			}
+			fa, ok := st.Addr.(*ssa.FieldAddr)
+			if !ok {
+				return false
+			}
+			T, F := fieldOf(fa.X.Type(), fa.Field)
+			return T == "profile.Sample" && F == "Location"
+		}, 2) {
+			{
+				// the test is looked for where the removal is triggered in cleanupDuplicateLocations
+				// (the statement itself, or the call of the helper that performs it)
+				st := es.at
+				b := st.Block()
 				n++
 				key := fmt.Sprintf("dup-leaf:%s#%d", fnName(g), n)
 				eq, other := false, ""
